@@ -154,7 +154,9 @@ def run_app(sc):
     result = {"returns": [], "exceptions": []}
     with Patched(w):
         saved_sock_mod = _http.socket
+        saved_ssl = _http._ssl_socket
         _http.socket = FakeSocketModule()
+        _http._ssl_socket = lambda sock, sslopt, hostname: sock     # TLS itself is not simulated (C11 covers the options)
         try:
             cbs = {n: make_cb(n, 0) for n in ("on_open", "on_reconnect", "on_message", "on_data", "on_error", "on_close",
                                               "on_ping", "on_pong", "on_cont_message")}
@@ -189,6 +191,7 @@ def run_app(sc):
                 result["stuck"] = str(e)
         finally:
             _http.socket = saved_sock_mod
+            _http._ssl_socket = saved_ssl
     result["trace"] = trace
     result["attempts"] = [round(t, 6) for t in attempts_at]
     result["sockets"] = [{"closed": s.closed, "frames": [(op, fin, p.hex()) for op, fin, p in unmask_client_frames(bytes(s.written))],
